@@ -508,7 +508,7 @@ func TestVerif_C25(t *testing.T) {
 	r.Require("ack_writer_frames_checked", 5000)
 	r.Require("ack_writer_frames_truncated_for_room", 1000)
 	r.Require("ack_writer_frames_with_3_or_more_ranges", 1000)
-	r.Require("packets_processed", 5000)
+	r.Require("packets_processed", 2500)
 	r.Require("ack_frames_checked", 1000)
 	r.Require("multi_range_acks", 50)
 	r.Require("datagrams_duplicated", 100)
